@@ -209,6 +209,36 @@ theorem cache_valid_preserved {H : Type} (ops : Ops F64 R Q U) (sig : Q → H) (
     CacheValid ops (temperingStep ops tc) :=
   step_cacheValid hs tc h
 
+/-- **Cache fill** (obligation on the regenerated guard of `tempering_step` / `parallel_tempering_step` and the
+regenerated body of `make_ham_equalities`): from every valid cache state the guarded rebuild leaves both caches up to
+date. -/
+theorem cache_fill_spec (ops : Ops F64 R Q U) (tc : TC F64 R Q) (h : CacheValid ops tc) :
+    ensureCaches ops tc = fillCaches ops tc :=
+  ensure_of_valid ops tc h
+
+/-- a new container has valid (empty) caches — against the regenerated `new` literal -/
+theorem cache_valid_new (ops : Ops F64 R Q U) (r : R) : CacheValid ops (TemperingContainer.new r : TC F64 R Q) :=
+  cacheValid_new ops r
+
+/-- **`cache_valid_after_add`** — against the regenerated body of `add_qmc_stepper`: appending a replica (at any time,
+also after tempering steps) keeps the caches valid, because both are reset. -/
+theorem cache_valid_after_add (ops : Ops F64 R Q U) (tc : TC F64 R Q) (q : Q) (beta : F64) (h : CacheValid ops tc) :
+    CacheValid ops (addReplica tc q beta) :=
+  cacheValid_add ops tc q beta h
+
+/-- cache validity holds in every container reachable through the API (`new`, `add_qmc_stepper` interleaved with
+serial / rayon tempering steps, replica updates that keep the Hamiltonians in place, snapshot-restore cycles) -/
+theorem cache_valid_reachable {H : Type} (ops : Ops F64 R Q U) (sig : Q → H) (eqH : H → H → Bool)
+    (hs : HamStable ops sig eqH) (tc : TC F64 R Q) (h : Reachable ops sig tc) : CacheValid ops tc :=
+  reachable_cacheValid hs h
+
+/-- hence, at EVERY reachable snapshot point (also right after an add, or after the step following an add), the
+restored container's next tempering step agrees with the uninterrupted one -/
+theorem restore_continues_reachable {H : Type} (ops : Ops F64 R Q U) (sig : Q → H) (eqH : H → H → Bool)
+    (hs : HamStable ops sig eqH) (tc : TC F64 R Q) (h : Reachable ops sig tc) :
+    resetCaches (temperingStep ops (resetCaches tc)) = resetCaches (temperingStep ops tc) :=
+  step_reset_irrelevant ops tc (reachable_cacheValid hs h)
+
 end Tempering
 
 /-! ## Non-vacuity and the role of the hypotheses -/
@@ -265,6 +295,41 @@ example : (temperingStep toyOps toyTC).total_swaps = 2 ∧
     (temperingStep toyOps toyTC).graph_ham_eq_a = some [true] ∧
     (temperingStep toyOps toyTC).graph_ham_eq_b = some [false] ∧
     (temperingStep toyOps toyTC).graphs.map (·.1.2.2) = [11, 12, 10] := by decide
+
+/-- a history that adds a replica AFTER a tempering step is reachable (the invariant is not only about containers
+filled before the first step) -/
+example : Reachable toyOps (fun q => q.1)
+    (addReplica (temperingStep toyOps (addReplica (addReplica (TemperingContainer.new 36) (1, 2, 10) 1) (1, 3, 11) 2))
+      (2, 4, 12) 3) :=
+  .add _ _ (.step (.add _ _ (.add _ _ (.new 36))))
+
+/-- what goes wrong if `add_qmc_stepper` reset only one cache, chosen by parity (second-round seeded mutation): after
+"2 replicas, one step, add a third" the kept cache of the second pairing is stale (`some []` instead of
+`some [false]`), so the caches are NOT valid … -/
+def badAdd (tc : TC Nat Nat (Nat × Nat × Nat)) (q : Nat × Nat × Nat) (beta : Nat) : TC Nat Nat (Nat × Nat × Nat) :=
+  let tc := if tc.graphs.length % 2 == 0 then { tc with graph_ham_eq_a := none } else { tc with graph_ham_eq_b := none }
+  { tc with graphs := tc.graphs ++ [(q, beta)] }
+
+def toyGrown (add : TC Nat Nat (Nat × Nat × Nat) → (Nat × Nat × Nat) → Nat → TC Nat Nat (Nat × Nat × Nat)) :=
+  add (temperingStep toyOps (addReplica (addReplica (TemperingContainer.new 108) (1, 2, 10) 1) (1, 3, 11) 2)) (2, 4, 12) 3
+
+example : (toyGrown badAdd).graph_ham_eq_b = some [] ∧
+    eqsOf toyOps (secondSub (toyGrown badAdd).graphs).2.1 = [false] := by decide
+
+/-- … and with a rebuild that only fills what is `None`, the uninterrupted run never considers the new last pair
+while the restored one does: the restored continuation differs (different swap counts after one more step). -/
+def badEnsure (tc : TC Nat Nat (Nat × Nat × Nat)) : TC Nat Nat (Nat × Nat × Nat) :=
+  let tc := if tc.graph_ham_eq_a.isNone then { tc with graph_ham_eq_a := some (eqsOf toyOps (firstSub tc.graphs).1) } else tc
+  if tc.graph_ham_eq_b.isNone then { tc with graph_ham_eq_b := some (eqsOf toyOps (secondSub tc.graphs).2.1) } else tc
+
+def badStep (tc : TC Nat Nat (Nat × Nat × Nat)) : TC Nat Nat (Nat × Nat × Nat) :=
+  temperingRest toyOps (setAllSerial toyOps) (performSwaps toyOps) (performSwaps toyOps) (badEnsure tc)
+
+example : (badStep (toyGrown badAdd)).total_swaps ≠ (badStep (resetCaches (toyGrown badAdd))).total_swaps := by decide
+
+/-- with the real (regenerated) add the two continuations agree -/
+example : (temperingStep toyOps (toyGrown addReplica)).total_swaps =
+    (temperingStep toyOps (resetCaches (toyGrown addReplica))).total_swaps := by decide
 
 end Examples
 
